@@ -76,7 +76,20 @@ class _Sentinel:
 SENT = _Sentinel()
 
 
+class _ListDefault(list):
+    """a mutable (unhashable) default value, the usual `tags=[]`"""
+
+    def __repr__(self):
+        return 'DEFAULT'
+
+
+UNHASHABLE = _ListDefault()
+_UNH = [False]      # variant: the defaults are one unhashable object
+
+
 def current_default():
+    if _UNH[0]:
+        return UNHASHABLE
     return SENT if _SCHEME[0] == 1 else DEFAULT
 
 
@@ -90,7 +103,7 @@ CTX = Ctx()
 def a_val(v):
     if v is CTX:
         return 'CTX'
-    if v is SENT:
+    if v is SENT or isinstance(v, _ListDefault):
         return 'DEFAULT'
     if isinstance(v, str) and (v in ('v1', 'v2', 'v3', 'v4', 'v5', DEFAULT) or v.startswith('n_')):
         return v
@@ -235,6 +248,7 @@ def run(ascn, loop):
     h = zlib.crc32(json.dumps(ascn, sort_keys=True).encode())
     set_scheme(h % 2)
     _ANN[0] = (h // 8) % 2 == 1
+    _UNH[0] = (h // 16) % 3 == 0
     _NOANN.clear()
     _NOANN.add(to_concrete(ascn)['ctx']['xname'])
     scn = to_concrete(ascn)
